@@ -1,0 +1,42 @@
+//go:build verif
+
+package bondmachine
+
+import (
+	"os"
+	"runtime"
+	"strconv"
+	"sync/atomic"
+	"time"
+)
+
+// Verification hook (build tag `verif`): perturbs the goroutine schedule of the per-processor
+// workers around procbuilder.VM.Step from a seed (env VERIF_SCHED_SEED; unset or 0 = no
+// perturbation).
+
+var verifSeed = func() uint64 {
+	v, _ := strconv.ParseUint(os.Getenv("VERIF_SCHED_SEED"), 10, 64)
+	return v
+}()
+
+var verifCtr atomic.Uint64
+
+func verifYield(procId int, point int) {
+	if verifSeed != 0 {
+		// splitmix64 of (seed, global event counter, processor, point)
+		z := verifSeed + 0x9E3779B97F4A7C15*(verifCtr.Add(1)+uint64(procId)*1315423911+uint64(point)*2654435761)
+		z = (z ^ (z >> 30)) * 0xBF58476D1CE4E5B9
+		z = (z ^ (z >> 27)) * 0x94D049BB133111EB
+		z ^= z >> 31
+		switch z % 4 {
+		case 0:
+			runtime.Gosched()
+		case 1:
+			time.Sleep(time.Duration(z>>8%20) * time.Microsecond)
+		case 2:
+			for i := uint64(0); i < (z>>8)%4; i++ {
+				runtime.Gosched()
+			}
+		}
+	}
+}
